@@ -122,6 +122,11 @@ func judgeC13(c *Ctx, sc *Scenario) *Violation {
 	mg := base
 	mg.Inv.Cwd = "elsewhere"
 	modes = append(modes, mode{name: "git -C <dir> sizer", sc: mg, site: site, opt: BOpts{ViaGit: true}})
+	if site.WorkDir != "" {
+		mg2 := base
+		mg2.Inv.Cwd = "elsewhere"
+		modes = append(modes, mode{name: "git -C <subdir> sizer", sc: mg2, site: site, opt: BOpts{ViaGit: true, ExtraEnv: []string{"subdir"}}})
+	}
 	// linked worktree
 	var firstCommit string
 	for _, o := range w.Objects {
@@ -154,7 +159,7 @@ func judgeC13(c *Ctx, sc *Scenario) *Violation {
 		msc := m.sc
 		var res *Result
 		if m.opt.ViaGit {
-			res = runViaGit(&msc, m.site)
+			res = runViaGit(&msc, m.site, len(m.opt.ExtraEnv) > 0)
 		} else {
 			res = RunB(&msc, m.site, m.opt)
 		}
@@ -225,11 +230,13 @@ func judgeC13(c *Ctx, sc *Scenario) *Violation {
 }
 
 // runViaGit runs `git -C <dir> sizer ...` with git-sizer on PATH.
-func runViaGit(sc *Scenario, site *Site) *Result {
+func runViaGit(sc *Scenario, site *Site, subdir bool) *Result {
 	bin := os.Getenv("VERIF_GITSIZER_BIN")
 	dir := site.WorkDir
 	if dir == "" {
 		dir = site.GitDir
+	} else if subdir {
+		dir = filepath.Join(dir, "sub", "dir")
 	}
 	s2 := *site
 	var env []string
@@ -330,6 +337,10 @@ func judgeC17(c *Ctx, sc *Scenario) *Violation {
 	}
 	defer site.Close()
 	if !verifyRoots(c, site, sc.Inv.Roots) {
+		return nil
+	}
+	if gm, _, err := groupModelFor(site); err != nil || !groupsUsable(gm) {
+		c.Stats.Probe("generated-config-unusable (skipped)")
 		return nil
 	}
 	// a work tree with an index and files, so that "read-only" has something to break
@@ -443,6 +454,12 @@ func checkC17(c *Ctx, rt *rapid.T) {
 		w.Layout = g.PickStr([]string{"packed", "packed-refs"}, "layout")
 	}
 	gm := NewGroupModel()
+	if g.Chance(1, 2, "groups") {
+		// several configured groups: anything that iterates a map while
+		// printing would show up as run-to-run differences
+		specs := GenGroups(g, w, 4, false)
+		w.Config.Local = RenderGroups(specs, &g)
+	}
 	refopts := GenRefOpts(g, w, gm, InvOpts{RefOpts: true, MaxRefOpts: 2})
 	roots := GenRoots(g, w)
 	fixed := FormatArgs(g, "")
@@ -477,4 +494,19 @@ func init() {
 		Rule: "engine B only (real git semantics are the point): generated repositories with reflogs, replace references for commits / trees / blobs and graft lines that add, drop or redirect parents; the real binary is started at the top of the work tree, in a subdirectory, inside .git, with GIT_DIR absolute and relative from an unrelated directory, on a bare / non-bare twin, in a linked worktree and as `git -C <dir> sizer`; stdout must be byte-identical across modes and the numbers equal the model evaluated on the stored graph (refs/replace/* being ordinary references); a real `git clone --depth 1` of the repository must be refused with an error and no report. non-trivial: the world carries replace refs or grafts; distinct by scenario hash"})
 	Register(&Prop{ID: "C17", Check: checkC17, Replay: judgeC17, Components: compB,
 		Rule: "generated repositories (loose / packed-refs / repacked, reflogs, an index and untracked files in the work tree) x command lines of every format; the real -race binary runs 4 times at GOMAXPROCS 1/2/16/4 with proxy re-chunking and delays on every other run, then the -race in-process engine runs 3 plan variants (same delivery order, different chunking / delays / pipe capacities / flush policies): stdout byte-identical across all runs, any race-detector report is a violation, and a digest of every path of the repository (type, mode, size, SHA-256) and of $HOME is unchanged afterwards. Goroutine choice inside git-sizer is sampled, not decided. distinct by scenario hash"})
+}
+
+// groupsUsable: every regexp compiles and no leaf group is rule-less
+// (git-sizer rejects such configuration by design).
+func groupsUsable(gm *GroupModel) bool {
+	for _, s := range gm.Order {
+		for _, r := range gm.Groups[s].Rules {
+			if r.Regexp {
+				if _, err := regexpFullMatch(r.Pattern, "x"); err != nil {
+					return false
+				}
+			}
+		}
+	}
+	return len(gm.Undefined()) == 0
 }
